@@ -13,6 +13,7 @@ func init() {
 		c.Explain = "Soundness structure of Merkle proof verification decided on CFG/SSA: (auth-before-traverse) in trie.VerifyProof and trie2.VerifyProof every success return and every use of a proof node (child selection, edge-path comparison, value return) happens only after the node's recomputed hash was compared with the expected hash and matched, and a missing node is an error; (range-fork) in trie2's range verifier the side that is cut below a fork edge is the one opposite to the boundary proof that points into the edge (mirror-image branches agree); " +
 			"(rpc-one-view) storage-proof RPC handlers (v8/v9/v10) take both tries, all proofs and the returned roots from the one HeadState() value and reject unsupported blocks before generating proofs. (hash-family) outside the constructors no function of the trie packages names a hash family: proof nodes are hashed with the function the trie was built with. Not decided: completeness (honest proofs verify), absence-proof divergence cases, hash correctness — these are value-level."
 		c10HashFamily(c)
+		c10ContentHashPure(c)
 		for _, fr := range []fref{{"core/trie", "", "VerifyProof"}, {"core/trie2", "", "VerifyProof"}} {
 			f := p.Func(fr.pkg, fr.recv, fr.name)
 			if f == nil {
@@ -287,4 +288,41 @@ func c10HashFamily(c *Ctx) {
 	if n < 8 {
 		c.und("hash-family", "trie packages", "", fmt.Sprintf("only %d functions naming a hash family found", n))
 	}
+}
+
+// c10ContentHashPure: the Hash methods of proof/trie nodes that VerifyProof relies on recompute the hash from the node's
+// content; they never return a hash cached on the node (a proof node handed in by an untrusted party carries whatever
+// cache it likes — F13 closed this at the call site, this rule closes it at the callee).
+func c10ContentHashPure(c *Ctx) {
+	p := c.P
+	n := 0
+	for _, tn := range []string{"BinaryNode", "EdgeNode"} {
+		f := p.Func("core/trie2/trienode", tn, "Hash")
+		if f == nil {
+			c.und("content-hash-pure", "trienode."+tn+".Hash", "", "anchor not found")
+			continue
+		}
+		n++
+		bad := ""
+		allInstrs(f, func(in ssa.Instruction) {
+			if fa, ok := in.(*ssa.FieldAddr); ok {
+				nm := fieldName(fa.X.Type(), fa.Field)
+				if nm == "Flags" || (nm == "Hash" && strings.Contains(typeShort(fa.X.Type()), "NodeFlag")) {
+					bad = nm
+				}
+			}
+			if fl, ok := in.(*ssa.Field); ok {
+				if nm := fieldName(fl.X.Type(), fl.Field); nm == "Flags" {
+					bad = nm
+				}
+			}
+		})
+		for _, s := range sitesOf(f) {
+			if s.Callee != nil && s.Callee.Name() == "Cache" {
+				bad = "Cache()"
+			}
+		}
+		c.check(bad == "", "content-hash-pure", "trienode."+tn+".Hash", p.Pos(fnPos(f)), "computed from children/path only", "the content hash of a node consults the cache stored on the node ("+bad+"): VerifyProof then accepts a proof node whose content was altered but whose cached hash was left in place")
+	}
+	_ = n
 }
